@@ -34,6 +34,7 @@ RULE += (' Also: a synchronous non-iterator collection as tee source.')
 RULE += (' Also: a child asking for an item the source has already handed out receives it without a single suspension (boundary monitor, class sources, also without aclose).')
 RULE += (' Also: class-based sources that also offer (and refuse) the synchronous protocol.')
 RULE += (' Also: a source whose __aiter__ must not be called again once iteration has begun.')
+RULE += (' Also: sources handing out the same object several times in a row (every occurrence is an item for every child).')
 ASSUMPTIONS = ["without a lock only non-suspending sources are claimed (as the property states)",
                "class-based cancellation-safe source: an item is consumed only after the last suspension of __anext__",
                "consumers close their child when they stop (owner closes what it advanced)"]
@@ -99,6 +100,9 @@ def cases(tier, seed, shard, nshards):
             case["flav"] = "sync_iterable"
         # locks that are a scheduling point before acquiring / after having released
         case["lock_susp"] = rng.choice([[0, 0], [0, 0], [1, 0], [0, 1], [1, 1]]) if case["lock"] else [0, 0]
+        # a source handing out the SAME object several times in a row (a repeated sentinel, an interned value): each
+        # occurrence is an item of its own for every child
+        case["repeat"] = rng.random() < 0.2
         case["seed"] = rng.randrange(1 << 30)
         yield case
 
@@ -107,8 +111,13 @@ def execute(case, choose, cancel_at=None):
     """Build the scenario from scratch, run it under ``choose``; return (violations, info)."""
     CTX.reset()
     n, length = case["n"], case["len"]
-    items = [Item(i, (0, i)) for i in range(length)]
-    refs = [weakref.ref(x) for x in items]
+    items = []
+    for i in range(length):
+        items.append(items[-1] if case.get("repeat") and i % 3 else Item(i, (0, i)))
+    expected = [x.uid[1] for x in items]
+    # (object, index of its last occurrence): an object is done with once every live child yielded that occurrence
+    refs = [(weakref.ref(x), max(j for j in range(length) if items[j] is x)) for i, x in enumerate(items)
+            if i == 0 or items[i - 1] is not x]
     st = SrcState(0, items, Plan(case["src_susp"]), log=False)
     st.drop = True
     del items
@@ -179,7 +188,7 @@ def execute(case, choose, cancel_at=None):
                           f"source __anext__ active {st.max_active}x at step {driver.steps}"))
         live = [c for c in range(n) if not closed[c] and not finished[c]]
         floor = min((len(recs[c]) for c in live), default=st.pos)
-        stale = sum(1 for i in range(min(floor, length)) if refs[i]() is not None)
+        stale = sum(1 for ref, last in refs if last < floor and ref() is not None)
         if stale > worst["stale"]:
             worst["stale"] = stale
         # (a synchronous source is read through the library's sync-to-async adapter, a generator whose loop variable
@@ -197,7 +206,6 @@ def execute(case, choose, cancel_at=None):
     driver.run()
     info = {"trace": tuple(driver.trace), "choice_points": driver.choice_points, "worst_stale": worst["stale"],
             "contended": lock.contended if lock is not None else 0, "buffered_reads": seen["buffered_reads"], "suspensions": [t.resumes for t in tasks]}
-    expected = list(range(length))
     if driver.deadlock:
         viols.append(("tee/deadlock", f"no runnable task; unfinished: {[t.name for t in tasks if not t.done]}"))
     for c, t in enumerate(tasks):
